@@ -28,7 +28,7 @@ VARIABLES pool,         \* the pool's internal structures (record, see InitPool)
           cycled,       \* TRUE iff the last operation ended with a maintenance cycle (runReorg)
           last,         \* ghost: [op, tx, err] of the last operation (for action properties)
           gapped        \* ghost: accounts whose pending list was left with a nonce gap by a Reset
-                        \* (TODO-KNOWN-FINDING C41-gap-after-reorg, see PendingGapless)
+                        \* (KNOWN-FINDING (open, known_findings.json) C41-gap-after-reorg, see PendingGapless)
 
 vars == <<pool, cfg, blocks, head, cycled, last, gapped>>
 
@@ -453,7 +453,7 @@ PendTxs  == UNION {pool.pend[a] : a \in Accts}
 QueueTxs == UNION {pool.queue[a] : a \in Accts}
 
 (* each account's pending transactions: gapless nonce sequence starting at the state nonce. *)
-(* PendingGaplessStrict is the property as stated.  TODO-KNOWN-FINDING C41-gap-after-reorg: *)
+(* PendingGaplessStrict is the property as stated.  KNOWN-FINDING (open, known_findings.json) C41-gap-after-reorg: *)
 (* the real pool (and therefore this model of it) violates the strict form after a Reset    *)
 (* whose reinjection of reorged-out transactions fails for a middle nonce: promoteTx puts    *)
 (* the executable prefix in front of the still-pending higher nonces and                     *)
